@@ -8,6 +8,8 @@ import (
 )
 
 var registry = map[string]func(*checks.Run) int{
+	"C06": checks.CheckC06,
+	"C07": checks.CheckC07,
 	"C11": checks.CheckC11,
 	"C01": checks.CheckC01,
 	"C02": checks.CheckC02,
@@ -16,6 +18,7 @@ var registry = map[string]func(*checks.Run) int{
 	"C12": checks.CheckC12,
 	"C13": checks.CheckC13,
 	"C14": checks.CheckC14,
+	"C19": checks.CheckC19,
 }
 
 func main() {
